@@ -17,6 +17,9 @@ THEOREMS = [
     (NS + "C16_bindings_are_spec", "full"),
     (NS + "C16_spec_bindings_unique", "full"),
     (NS + "C16_bindings_eq_spec", "full"),
+    (NS + "C16_spec_is_plain_rule", "full"),
+    (NS + "C16_regex_iff_plain_rule", "full"),
+    (NS + "C16_trailing_slash_tolerated", "full"),
     (NS + "C16_two_multi_params_rejected", "full"),
     (NS + "C16_first_route_wins", "full"),
     (NS + "C16_404", "full"),
@@ -32,11 +35,12 @@ ASSUMPTIONS = [
     "the rate limiter admits the request (fresh client address per dispatch in the harness; `limited` is a "
     "parameter of the model's dispatch)",
     "where the documentation is silent (empty path segments) Spec fixes: :n? and :n* accept empty segments, "
-    ":n+ binds >=1 segments with non-empty joined text; invisible on paths without '//'",
+    ":n+ binds >=1 segments with non-empty joined text; invisible on paths without '//' "
+    "(theorem C16_spec_is_plain_rule); the monitor flags such paths only when every reading agrees",
 ]
 RULE = ("exhaustive: every pattern of <=3 (thorough <=4) segments over {a, ab, a.b, :x, :x?, :x+, :x*} x every path "
         "of <=4 (thorough <=5) segments over {a, ab, abc, aXb, ''} with/without trailing slash: regex text, "
-        "re.match groups, Spec bindings; route tables of 3 routes in every registration order over all four "
+        "re.match groups, Spec bindings, plain-rule verdict; route tables of 3 routes in every registration order over all four "
         "methods + an unsupported one: getRoute/dispatch; random patterns with regex metacharacters, unicode, "
         "odd parameter names, doubled slashes, duplicate names; non-trivial = the case has a match and a non-match")
 
@@ -124,12 +128,18 @@ def spec_sols(pat, path):
     return res
 
 
+def plain_segs(path):
+    """drop one trailing '/', what remains is /s1/.../sn"""
+    return strict_segs(path[:-1] if path.endswith("/") else path)
+
+
+def is_clean(path):
+    return all(s != "" for s in plain_segs(path))
+
+
 def simple_sols(pat, path):
-    """reading B: strip the leading '/', strip one trailing '/', split on '/'; + = one or more segments"""
-    body = path[1:]
-    if body.endswith("/"):
-        body = body[:-1]
-    segs = body.split("/") if body else []
+    """reading B (= Lean Spec.plainMatches): drop one trailing '/', split /s1/.../sn; + = one or more segments"""
+    segs = plain_segs(path)
 
     def go(pat, segs):
         if not pat:
@@ -204,6 +214,10 @@ class Impl:
                 # not the real code: the Python statement of the documented rule (monitor's reading A)
                 sols = spec_sols(parse_pattern(cur[2]), unhx(w[1]))
                 out.append("s none" if not sols else "s " + show_vals(sols[0]))
+            elif op == "plain":
+                # not the real code either: the plain reading (monitor's reading B)
+                path = unhx(w[1])
+                out.append("p %d %d" % (is_clean(path), bool(simple_sols(parse_pattern(cur[2]), path))))
             elif op == "reg":
                 rid = int(w[1])
 
@@ -435,6 +449,7 @@ def match_case(cid, pattern, paths, spec=True):
         lines.append("match %s" % hx(p))
         if spec:
             lines.append("spec %s" % hx(p))
+            lines.append("plain %s" % hx(p))
     lines.append("end")
     return lines
 
@@ -467,7 +482,7 @@ def run(ctx):
     def impl_fn(case):
         out = impl.run_case(case)
         # side observation (not a requirement): real groups == Spec.bindings exactly, newline-free paths
-        ops = [l for l in case[1:] if l.split()[0] in ("pat", "match", "spec")]
+        ops = [l for l in case[1:] if l.split()[0] in ("pat", "match", "spec", "plain")]
         if len(ops) == len(out):
             for k in range(len(ops) - 1):
                 if ops[k].startswith("match ") and ops[k + 1].startswith("spec ") and \
@@ -513,11 +528,15 @@ def run(ctx):
     ctx.notes["valid_patterns"] = len(valid)
     stride = max(1, (len(valid) * len(paths) + full_budget - 1) // full_budget)
     ctx.notes["lean_path_stride"] = stride
+    # Spec.bindings / plain-rule ops (model vs the Python statement of the rule, no real code involved): on
+    # every pattern in the quick tier, on every third one in the thorough tier
+    spec_every = ctx.scale(1, 3)
+    spec_off = rng.randrange(spec_every)
     for i, pattern in enumerate(patterns):
         if valid_pattern(parse_pattern(pattern)):
             off = rng.randrange(stride)
             sub = paths if stride == 1 else (paths[:60] + paths[60 + off::stride])
-            cases.append(match_case("e%d" % i, pattern, sub, spec=True))
+            cases.append(match_case("e%d" % i, pattern, sub, spec=(i % spec_every == spec_off)))
         else:
             cases.append(["case e%d" % i, "pat %s" % hx(pattern), "end"])
     corr("Regex", cases, 300)
